@@ -311,8 +311,9 @@ def profile_for(pid, tier):
         P["sel_depth"] = 3
     elif pid == "C34":
         P["ops"].update({"subtrace": 8})
-        G["root_kinds"] = {"static": 6, "dimap": 1, "closure": 1, "vmap": 1, "scan": 1}
+        G["root_kinds"] = {"static": 5, "dimap": 1, "closure": 1, "vmap": 2, "scan": 2, "switch": 3, "or_else": 1}
         G["nest"] = 0.7
+        P["oob_index"] = 0.2
     elif pid == "C33":
         P["ops"].update({"abort": 8})
     elif pid == "C35":
@@ -332,7 +333,9 @@ def profile_for(pid, tier):
         P["oob_index"] = 0.1
         G["kinds"].update({"switch": 5, "mask": 3})
     elif pid == "C38":
-        P["ops"].update({"empty_edit": 4, "static_edit": 4, "simulate": 4, "importance": 3})
+        P["ops"].update({"empty_edit": 4, "static_edit": 8, "simulate": 4, "importance": 3, "undo": 6})
+        G["root_kinds"] = {"static": 6, "dimap": 1, "partial": 1, "closure": 1, "vmap": 1, "scan": 1}
+        G["max_stmts"] = 4
     elif pid == "C04":
         P["ops"] = {"simulate": 10, "importance": 1, "update": 1}
         P["perts"].update({"key:replay": 6, "cache:cold": 3, "stage:jit": 4, "stage:vmap": 4})
@@ -503,7 +506,7 @@ def gen_session(session_seed, pid, tier, profile=None):
             edited = [s for s in live if s.get("edit") is not None]
             if not edited:
                 continue
-            tgt = rng.choice(edited)
+            tgt = edited[-1] if rng.random() < 0.6 else rng.choice(edited)
             st = {"op": "undo", "of": tgt["name"], "key": key(), "out": new_slot()}
             steps.append(st)
             # the restored trace is an edit result too (undo of undo)
